@@ -27,5 +27,5 @@ package helpers
 //@ func PutSaturatedToBytes
 //@   props C01 C02
 //@   ensures os2ip(dst) == old(e4(src))
-//@   ensures len(result) == 32 && same(result, dst)
+//@   ensures result == dst[0:32]
 //@   modifies dst
